@@ -137,6 +137,8 @@ static void note_s(Obs& o, const char* what, const std::string& s) { mem::Pause 
 static void note_q(Obs& o, const char* what, const Coefficient& n, const Coefficient& d) { mem::Pause p; mpz_class a(n), b(d); o.push_back(std::string(what) + "=" + a.get_str() + "/" + b.get_str()); }
 static std::string join(const Obs& o) { std::string r; for (size_t i = 0; i < o.size(); ++i) r += (i ? "; " : "") + o[i]; return r; }
 
+template <class T> static std::string show(const T& x) { std::ostringstream o; o << x; return o.str(); }
+
 // ------------------------------------------------------------------ domains
 typedef BD_Shape<mpq_class> BDS;
 typedef Octagonal_Shape<mpz_class> OS;
@@ -203,12 +205,13 @@ static long g_abandon_in_call = 0;
 // child: an object left in a broken state may crash or hang when it is used, and that must not end the search.
 struct Finding { std::string id, cls, msg; bool weak; };
 struct Report {
-  std::vector<Finding> v; std::string cls;
+  std::vector<Finding> v; std::string cls, how;
   void check(const std::string& id, bool ok, const std::function<std::string()>& m) { if (!ok) v.push_back(Finding{ id, cls, m(), false }); }
   void weak(const std::string& id, bool ok, const std::function<std::string()>& m) { if (!ok) v.push_back(Finding{ id, cls, m(), true }); }
 };
 static int soft_mode() { static int v = -1; if (v < 0) { const char* e = std::getenv("C14_SOFT"); v = e ? std::atoi(e) : 0; } return v; }   // exploration aid: weak checks become tags
-template <class F> static void inspect_in_child(Report& rep, const std::string& crash_id, const std::string& where, F f) {
+// returns the number of phases completed (3: all); rep.how describes an abnormal end
+template <class F> static int inspect_in_child(Report& rep, F f) {
   int fd[2]; if (::pipe(fd) != 0) throw vf::Inconclusive("pipe() failed");
   std::fflush(stdout); std::fflush(stderr);
   pid_t pid = ::fork();
@@ -217,28 +220,31 @@ template <class F> static void inspect_in_child(Report& rep, const std::string& 
     for (int sg : { SIGSEGV, SIGABRT, SIGFPE, SIGBUS, SIGILL }) std::signal(sg, SIG_DFL);
     ::close(fd[0]); int dn = ::open("/dev/null", O_WRONLY); if (dn >= 0) { ::dup2(dn, 2); ::dup2(dn, 1); }
     ::alarm(3);
-    Report r;
-    try { f(r); }
-    catch (std::exception& e) { r.v.push_back(Finding{ crash_id, r.cls, std::string("using the objects after the failure throws ") + typeid(e).name() + ": " + e.what(), false }); }
-    catch (...) { r.v.push_back(Finding{ crash_id, r.cls, "using the objects after the failure throws a non-standard exception", false }); }
-    std::string out; for (Finding& x : r.v) { for (char& ch : x.msg) if (ch == '\n' || ch == '\t') ch = ' '; out += x.id + "\t" + x.cls + "\t" + (x.weak ? "w" : "s") + "\t" + x.msg + "\n"; }
-    out += "END\t" + r.cls + "\n";
-    size_t off = 0; while (off < out.size()) { ssize_t w = ::write(fd[1], out.data() + off, out.size() - off); if (w <= 0) break; off += (size_t) w; }
+    Report r; size_t sent = 0;
+    auto flush = [&](const char* marker) {
+      std::string out; for (; sent < r.v.size(); ++sent) { Finding& x = r.v[sent]; for (char& ch : x.msg) if (ch == '\n' || ch == '\t') ch = ' '; out += x.id + "\t" + x.cls + "\t" + (x.weak ? "w" : "s") + "\t" + x.msg + "\n"; }
+      out += std::string("MARK\t") + marker + "\t" + r.cls + "\n";
+      size_t off = 0; while (off < out.size()) { ssize_t w = ::write(fd[1], out.data() + off, out.size() - off); if (w <= 0) break; off += (size_t) w; }
+    };
+    try { f(r, flush); flush("END"); }
+    catch (std::exception& e) { r.v.push_back(Finding{ "EXC", r.cls, std::string(typeid(e).name()) + ": " + e.what(), false }); flush("EXC"); }
+    catch (...) { r.v.push_back(Finding{ "EXC", r.cls, "non-standard exception", false }); flush("EXC"); }
     ::_exit(0);
   }
   ::close(fd[1]); std::string in; char buf[4096]; for (;;) { ssize_t n = ::read(fd[0], buf, sizeof buf); if (n <= 0) break; in.append(buf, (size_t) n); } ::close(fd[0]);
   int status = 0; while (::waitpid(pid, &status, 0) < 0 && errno == EINTR) { }
-  bool complete = false; std::istringstream is(in); std::string line;
+  int done = 0; std::string exc; std::istringstream is(in); std::string line;
   while (std::getline(is, line)) {
     size_t a = line.find('\t'); if (a == std::string::npos) continue; std::string id = line.substr(0, a);
-    if (id == "END") { complete = true; rep.cls = line.substr(a + 1); continue; }
-    size_t b = line.find('\t', a + 1), c2 = b == std::string::npos ? b : line.find('\t', b + 1); if (c2 == std::string::npos) continue;
+    size_t b = line.find('\t', a + 1);
+    if (id == "MARK") { if (b == std::string::npos) continue; std::string m = line.substr(a + 1, b - a - 1); rep.cls = line.substr(b + 1); if (m == "P0") done = 1; else if (m == "P1") done = 2; else if (m == "END") done = 3; continue; }
+    size_t c2 = b == std::string::npos ? b : line.find('\t', b + 1); if (c2 == std::string::npos) continue;
+    if (id == "EXC") { exc = line.substr(c2 + 1); continue; }
     rep.v.push_back(Finding{ id, line.substr(a + 1, b - a - 1), line.substr(c2 + 1), line[b + 1] == 'w' });
   }
-  if (!complete || !(WIFEXITED(status) && WEXITSTATUS(status) == 0)) {
-    std::string how = WIFSIGNALED(status) ? (WTERMSIG(status) == SIGALRM ? std::string("does not terminate (3 s)") : "crashes with signal " + std::to_string(WTERMSIG(status))) : "ends abnormally (exit status " + std::to_string(WIFEXITED(status) ? WEXITSTATUS(status) : -1) + ")";
-    rep.v.push_back(Finding{ crash_id, rep.cls, "using the objects left by the failure (" + where + ": OK(), comparison with the pre-call value, repetition of a const operation) " + how, false });
-  }
+  if (done < 3)
+    rep.how = !exc.empty() ? "throws " + exc : WIFSIGNALED(status) ? (WTERMSIG(status) == SIGALRM ? std::string("does not terminate (3 s)") : "crashes with signal " + std::to_string(WTERMSIG(status))) : "ends abnormally (exit status " + std::to_string(WIFEXITED(status) ? WEXITSTATUS(status) : -1) + ")";
+  return done;
 }
 struct CountingCheckpoint : public Throwable {
   mutable long seen; long k;
@@ -265,16 +271,18 @@ template <class W> struct Driver {
   Ctx& c; const Plain& P; std::string fam; int nsteps;
   std::vector<W*> snaps; W* fin; std::vector<Obs> obs;
   long N, C; unsigned long long Wt; long n_new, n_gmp, n_gmp_other;
-  long probes, fired_n, nt_n, unfired_n, absorbed_n, build_n, cache_growth_n;
+  long probes, poisoned_n, fired_n, nt_n, unfired_n, absorbed_n, build_n, cache_growth_n;
   Driver(Ctx& c_, const Plain& p) : c(c_), P(p), fam(W::family(p)), nsteps(W::nsteps(p)), fin(0), N(0), C(0), Wt(0), n_new(0), n_gmp(0), n_gmp_other(0),
-    probes(0), fired_n(0), nt_n(0), unfired_n(0), absorbed_n(0), build_n(0), cache_growth_n(0) {}
+    probes(0), poisoned_n(0), fired_n(0), nt_n(0), unfired_n(0), absorbed_n(0), build_n(0), cache_growth_n(0) {}
   ~Driver() { for (W* s : snaps) delete s; delete fin; }
   std::string id(const char* chk) const { return std::string(chk) + "." + fam; }
   std::string last_cls;      // step class of the last failing stage ("" while building)
   // one finding of part B: known-finding classes are excluded, exploration mode turns it into a tag, otherwise the check fails
   void finding(const Finding& f) {
     if (const char* kid = b_known(fam, f)) if (kf(kid)) { c.excluded(kid); return; }
-    if ((f.weak && soft_mode() >= 1) || soft_mode() >= 2) { c.tag("SOFT " + f.id + " | " + f.cls); return; }
+    static const char* only = std::getenv("C14_ONLY");     // exploration aid: findings with this id prefix stay hard in soft mode
+    bool hard = only && f.id.compare(0, std::strlen(only), only) == 0;
+    if (!hard && ((f.weak && soft_mode() >= 1) || soft_mode() >= 2)) { c.tag("SOFT " + f.id + " | " + f.cls); return; }
     c.check(f.id, false, [&] { return f.msg; });
   }
   void verdict(const char* chk, bool ok, const std::function<std::string()>& m) { if (!ok) finding(Finding{ id(chk), last_cls, m(), false }); }
@@ -294,7 +302,7 @@ template <class W> struct Driver {
           if (record) { mem::Pause p; obs.assign(nsteps, Obs()); }
           { mem::Pause p; o3.assign(nsteps, Obs()); }
           for (int i = 0; i < nsteps; ++i) { if (record) { mem::Pause p; snaps.push_back(new W(w)); } w.step(i, record ? obs[i] : o3[i]); }
-          if (record) { mem::Pause p; fin = new W(w); }
+          if (record) { mem::Pause p; fin = new W(w); if (std::getenv("C14_DEBUG")) std::cerr << "recorded: equal to live world " << w.equal(*fin) << w.diff(*fin) << "\n"; }
           if (compare) { mem::Pause p; eq = w.equal(*fin); }
         }
         mem::track = 0;
@@ -313,11 +321,19 @@ template <class W> struct Driver {
   }
 
   // one run with a fault armed; returns the live-allocation delta
+  // manually managed storage: a world that is known (or found by the child) to be undestroyable is abandoned, not destroyed
+  struct Slot {
+    alignas(W) unsigned char buf[sizeof(W)]; W* w; bool abandon;
+    Slot() : w(0), abandon(false) {}
+    ~Slot() { if (w && !abandon) w->~W(); }
+    W* operator->() { return w; }
+  };
+  bool skip_leak;
   long fault(int mode, long k, bool oracle) {
-    long live0 = mem::live;
+    long live0 = mem::live; skip_leak = false;
     {
       std::vector<Obs> o2(nsteps);
-      std::optional<W> ow; int stage = -2, exc = 0; std::string what;
+      Slot ow; int stage = -2, exc = 0; std::string what;
       CountingCheckpoint cp;
       ResetGlobals guard;
       g_abandon_in_call = 0;
@@ -325,45 +341,62 @@ template <class W> struct Driver {
       if (mode == 4) guard.ww = new Weightwatch((Weightwatch_Traits::Delta) k, abandon_expensive_computations, g_tflag);
       mem::count = 0; mem::fired = 0; mem::fired_in_call = false; mem::fired_gmp = false; mem::arm = mode <= 2 ? k : 0;
       mem::track = 1;
-      try { stage = -1; ow.emplace(P); for (int i = 0; i < nsteps; ++i) { stage = i; ow->step(i, o2[i]); } stage = nsteps; }
+      try { stage = -1; ow.w = new (ow.buf) W(P); for (int i = 0; i < nsteps; ++i) { stage = i; ow->step(i, o2[i]); } stage = nsteps; }
       catch (std::bad_alloc&) { exc = 1; }
       catch (Abandoned&) { exc = 2; }
       catch (std::exception& e) { mem::track = 0; exc = 3; what = std::string(typeid(e).name()) + ": " + e.what(); }
       catch (...) { exc = 4; what = "non-standard exception"; }
       mem::track = 0; mem::arm = 0; abandon_expensive_computations = 0; if (guard.ww) { delete guard.ww; guard.ww = 0; }
-      if (oracle) {
+      const char* kind = mode <= 2 ? " / alloc" : " / abandon";
+      const char* poison = (exc != 0 && stage >= 0 && stage < nsteps && ow.w) ? ow->poison(stage) : 0;
+      if (poison && kf(poison)) { c.excluded(poison); ow.abandon = true; skip_leak = true; ++poisoned_n; }   // known: the objects cannot even be destroyed
+      else if (oracle) {
         bool fired = mode <= 2 ? mem::fired > 0 : exc == 2;
         bool in_call = mode <= 2 ? mem::fired_in_call : g_abandon_in_call > 0;
         int expect = mode <= 2 ? 1 : 2;
         auto where = [&] { return std::string(mode_name(mode)) + ", k=" + std::to_string(k) + (stage < 0 ? ", while building the objects" : ", in step " + std::to_string(stage)) + (mode <= 2 ? (mem::fired_gmp ? " (GMP allocation)" : " (operator new)") : ""); };
-        last_cls = stage < 0 ? "building" : ow ? ow->step_name(stage < nsteps ? stage : nsteps - 1) : "building"; verdict("b.exception_type", exc == 0 || (exc == expect && fired), [&] { return "injected failure (" + where() + "): " + (exc == 1 ? std::string("std::bad_alloc although nothing was injected") : exc == 2 ? std::string("unexpected abandonment") : "the call site received " + what); });
+        last_cls = (stage < 0 || !ow.w ? std::string("building") : ow->step_name(stage < nsteps ? stage : nsteps - 1)) + kind;
+        verdict("b.exception_type", exc == 0 || (exc == expect && fired), [&] { return "injected failure (" + where() + "): " + (exc == 1 ? std::string("std::bad_alloc although nothing was injected") : exc == 2 ? std::string("unexpected abandonment") : "the call site received " + what); });
         ++probes;
         if (exc == 0) {
           bool ok = ow->equal(*fin); for (int i = 0; i < nsteps; ++i) if (o2[i] != obs[i]) ok = false;
           if (fired) { ++absorbed_n; c.tag("B failure absorbed by the library"); } else ++unfired_n;
-          verdict("b.unfired_same", ok, [&] { return std::string(fired ? "the failure was absorbed" : "nothing fired") + " (" + where() + ") but the results differ from the clean run"; });
+          verdict("b.unfired_same", ok, [&] { return std::string(fired ? "the failure was absorbed" : "nothing fired") + " (" + where() + ") but the results differ from the clean run" + ow->diff(*fin); });
         }
-        else if (stage < 0) ++build_n;
+        else if (stage < 0 || !ow.w) ++build_n;
         else {
           ++fired_n; if (in_call) { ++nt_n; c.nt(); }
           std::string wh = where();
           Report rep;
-          inspect_in_child(rep, id("b.crash_after_failure"), wh, [&](Report& r) {
-            ow->after_failure(r, stage, *snaps[stage], fam, wh);
+          int done = inspect_in_child(rep, [&](Report& r, const std::function<void(const char*)>& mark) {
+            ow->after_failure(r, stage, *snaps[stage], fam, wh, 0);
             if (ow->is_const_step(stage)) {
               Obs tmp; std::string threw;
               try { ow->step(stage, tmp); } catch (std::exception& e) { threw = std::string(typeid(e).name()) + ": " + e.what(); } catch (...) { threw = "non-standard exception"; }
               r.check(id("b.retry"), threw.empty() && tmp == obs[stage], [&] { return "after the failure (" + wh + ") the same const operation repeated on the same objects " + (threw.empty() ? "answers [" + join(tmp) + "], the clean run answered [" + join(obs[stage]) + "]" : "throws " + threw); });
             }
+            mark("P0");
+            ow->after_failure(r, stage, *snaps[stage], fam, wh, 1);
+            mark("P1");
+            ow->assign_from(*snaps[stage]); ow.w->~W(); ow.abandon = true;
           });
-          last_cls = rep.cls;
+          for (Finding& f : rep.v) f.cls += kind;
+          if (done < 3) {
+            std::string how = rep.how + " (" + wh + ", step class " + last_cls + ")";
+            if (done == 0) rep.v.push_back(Finding{ id("b.crash_after_failure"), last_cls, "using the objects not being modified by the failed call (OK(), comparison with the pre-call value, repetition of a const operation) " + how, false });
+            else if (done == 1) rep.v.push_back(Finding{ id("b.receiver_ok"), last_cls, "OK() of the receiver " + how, true });
+            else rep.v.push_back(Finding{ id("b.assign_destroy"), last_cls, "assigning the pre-step values to the objects and destroying them " + how, false });
+            ow.abandon = true; skip_leak = true;
+          }
           for (const Finding& f : rep.v) finding(f);
-          std::string threw;
-          try { ow->assign_from(*snaps[stage]); for (int i = stage; i < nsteps; ++i) { o2[i].clear(); ow->step(i, o2[i]); } }
-          catch (std::exception& e) { threw = std::string(typeid(e).name()) + ": " + e.what(); } catch (...) { threw = "non-standard exception"; }
-          bool ok = threw.empty(); if (ok) { for (int i = stage; i < nsteps; ++i) if (o2[i] != obs[i]) ok = false; if (!ow->equal(*fin)) ok = false; }
-          verdict("b.reuse", ok, [&] { std::string m = "after the failure (" + wh + ") every object was assigned its pre-step value and the rest of the scenario was re-run: ";
-            if (!threw.empty()) return m + "it throws " + threw; for (int i = stage; i < nsteps; ++i) if (o2[i] != obs[i]) m += "step " + std::to_string(i) + " answers [" + join(o2[i]) + "] instead of [" + join(obs[i]) + "]; "; return m + "(final objects compared too)"; });
+          if (done == 3) {
+            std::string threw;
+            try { ow->assign_from(*snaps[stage]); for (int i = stage; i < nsteps; ++i) { o2[i].clear(); ow->step(i, o2[i]); } }
+            catch (std::exception& e) { threw = std::string(typeid(e).name()) + ": " + e.what(); } catch (...) { threw = "non-standard exception"; }
+            bool ok = threw.empty(); if (ok) { for (int i = stage; i < nsteps; ++i) if (o2[i] != obs[i]) ok = false; if (!ow->equal(*fin)) ok = false; }
+            verdict("b.reuse", ok, [&] { std::string m = "after the failure (" + wh + ") every object was assigned its pre-step value and the rest of the scenario was re-run: ";
+              if (!threw.empty()) return m + "it throws " + threw; for (int i = stage; i < nsteps; ++i) if (o2[i] != obs[i]) m += "step " + std::to_string(i) + " answers [" + join(o2[i]) + "] instead of [" + join(obs[i]) + "]; "; return m + "(final objects compared too)" + ow->diff(*fin); });
+          }
         }
       }
     }
@@ -371,9 +404,9 @@ template <class W> struct Driver {
   }
   void probe(int mode, long k) {
     long d1 = fault(mode, k, true);
-    if (d1 > 0) {
-      long d2 = fault(mode, k, false); long d3 = d2 > 0 ? fault(mode, k, false) : 0;
-      if (d2 > 0 && d3 > 0) verdict("b.leak", false, [&] { return std::string("fault ") + mode_name(mode) + " k=" + std::to_string(k) + ": live library allocations grew by " + std::to_string(d1) + ", " + std::to_string(d2) + ", " + std::to_string(d3) + " blocks on three consecutive identical runs (everything had been destroyed)"; });
+    if (d1 > 0 && !skip_leak) {
+      long d2 = fault(mode, k, false); long d3 = d2 > 0 && !skip_leak ? fault(mode, k, false) : 0;
+      if (d2 > 0 && d3 > 0 && !skip_leak) verdict("b.leak", false, [&] { return std::string("fault ") + mode_name(mode) + " k=" + std::to_string(k) + " (step class " + last_cls + "): live library allocations grew by " + std::to_string(d1) + ", " + std::to_string(d2) + ", " + std::to_string(d3) + " blocks on three consecutive identical runs (everything had been destroyed)"; });
       else ++cache_growth_n;
     }
   }
@@ -395,11 +428,11 @@ template <class W> struct Driver {
     c.log << "\n";
     c.tag(std::string("B ") + fam + " / " + mode_name(mode));
     if (n_gmp_other > 0) c.tag("B GMP allocations from non-whitelisted GMP functions present");
-    for (long k : ks) probe(mode, k);
+    for (long k : ks) { probe(mode, k); if (std::getenv("C14_DEBUG")) { W chk(P); for (int i = 0; i < nsteps; ++i) { Obs o; chk.step(i, o); } std::cerr << "after k=" << k << " fin intact: " << chk.equal(*fin) << chk.diff(*fin) << "\n"; } }
     clean(false, true, "the final");
     c.check(id("b.global_state"), abandon_expensive_computations == 0 && Weightwatch_Traits::check_function == 0, "abandon_expensive_computations or a weight threshold is still installed after the case");
     mem::gmp_on = false;
-    c.log << " probes " << probes << ": failed inside a step " << fired_n << " (inside a library call " << nt_n << "), while building " << build_n << ", not fired " << unfired_n << ", absorbed " << absorbed_n << ", one-off cache growth " << cache_growth_n << "\n";
+    c.log << " probes " << probes << ": failed inside a step " << fired_n << " (inside a library call " << nt_n << "), while building " << build_n << ", not fired " << unfired_n << ", absorbed " << absorbed_n << ", one-off cache growth " << cache_growth_n << ", not inspected (known finding) " << poisoned_n << "\n";
   }
 };
 
@@ -478,12 +511,15 @@ template <class D> struct DomWorld {
   }
   bool is_const_step(int i) const { int k = P.steps[i].kind; return k == 8 || k == 10 || k == 14; }
   std::string step_name(int i) const { return dstep_names[P.steps[i].kind]; }
+  const char* poison(int) const { return 0; }
   void assign_from(const DomWorld& w) { for (int j = 0; j < 3; ++j) o[j] = w.o[j]; }
   bool equal(const DomWorld& w) const { for (int j = 0; j < 3; ++j) if (!same(o[j], w.o[j])) return false; return true; }
-  void after_failure(Report& c, int i, const DomWorld& snap, const std::string& fam, const std::string& where) {
+  std::string diff(const DomWorld& w) const { std::string r; for (int j = 0; j < 3; ++j) if (!same(o[j], w.o[j])) r += "\n  o" + std::to_string(j) + " = " + show(o[j]) + "\n  clean run: " + show(w.o[j]); return r; }
+  void after_failure(Report& c, int i, const DomWorld& snap, const std::string& fam, const std::string& where, int phase) {
     const DStep& st = P.steps[i]; bool cst = is_const_step(i); c.cls = dstep_names[st.kind];
     for (int j = 0; j < 3; ++j) {
       bool recv = !cst && j == st.r, arg = !recv && (j == st.r || j == st.s);
+      if (recv != (phase == 1)) continue;
       std::string what = std::string(dstep_names[st.kind]) + " (" + where + "), object o" + std::to_string(j);
       if (recv) c.weak("b.receiver_ok." + fam, o[j].OK(), [&] { return "the receiver fails OK() after a failed " + what; });
       else {
@@ -616,16 +652,20 @@ struct MipWorld {
   bool is_const_step(int i) const { int k = P.steps[i].kind; return k == 4 || k == 5; }
   std::string step_name(int i) const { return mstep_names[P.steps[i].kind]; }
   void assign_from(const MipWorld& w) { p = w.p; q = w.q; }
+  std::string diff(const MipWorld& w) const { return "\n  p = " + mip_value(p) + "\n  clean run: " + mip_value(w.p) + "\n  q = " + mip_value(q) + "\n  clean run: " + mip_value(w.q); }
   bool equal(const MipWorld& w) const { return mip_value(p) == mip_value(w.p) && mip_value(q) == mip_value(w.q); }
-  void after_failure(Report& c, int i, const MipWorld& snap, const std::string& fam, const std::string& where) {
+  // KF-C14-8: a failure inside solve() / is_satisfiable() leaves the tableau half updated: the problem may crash when it is used,
+  // assigned to or destroyed
+  const char* poison(int i) const { return is_const_step(i) ? "KF-C14-8" : 0; }
+  void after_failure(Report& c, int i, const MipWorld& snap, const std::string& fam, const std::string& where, int phase) {
     const MStep& st = P.steps[i]; c.cls = mstep_names[st.kind]; std::string what = std::string(mstep_names[st.kind]) + " (" + where + ")";
-    if (st.kind == 6) { c.weak("b.receiver_ok." + fam, p.OK() && q.OK(), [&] { return "source or target fails OK() after a failed " + what; }); return; }
-    if (is_const_step(i)) {
-      c.weak("b.arg_ok." + fam, p.OK(), [&] { return "the problem fails OK() after a failed const " + what; });
+    bool cst = is_const_step(i);
+    if (phase == 1) { if (!cst) c.weak("b.receiver_ok." + fam, p.OK() && (st.kind != 6 || q.OK()), [&] { return "the receiver fails OK() after a failed " + what; }); return; }
+    if (cst) {
       c.check("b.arg_value." + fam, mip_value(p) == mip_value(snap.p), [&] { return "the problem changed in a failed const " + what + ":\n before " + mip_value(snap.p) + "\n after  " + mip_value(p); });
+      c.weak("b.arg_ok." + fam, p.OK(), [&] { return "the problem fails OK() after a failed const " + what; });
     }
-    else c.weak("b.receiver_ok." + fam, p.OK(), [&] { return "the receiver fails OK() after a failed " + what; });
-    c.check("b.bystander." + fam, q.OK() && mip_value(q) == mip_value(snap.q), [&] { return "a problem not involved changed or fails OK() after a failed " + what; });
+    if (st.kind != 6) c.check("b.bystander." + fam, q.OK() && mip_value(q) == mip_value(snap.q), [&] { return "a problem not involved changed or fails OK() after a failed " + what; });
   }
   void step(int i, Obs& obs) {
     const MStep& st = P.steps[i];
@@ -686,16 +726,20 @@ struct PipWorld {
   bool is_const_step(int i) const { int k = P.steps[i].kind; return k == 2 || k == 3 || k == 7; }
   std::string step_name(int i) const { return pstep_names[P.steps[i].kind]; }
   void assign_from(const PipWorld& w) { p = w.p; q = w.q; }
+  std::string diff(const PipWorld& w) const { return "\n  p = " + pip_value(p) + "\n  clean run: " + pip_value(w.p) + "\n  q = " + pip_value(q) + "\n  clean run: " + pip_value(w.q); }
   bool equal(const PipWorld& w) const { return pip_value(p) == pip_value(w.p) && pip_value(q) == pip_value(w.q); }
-  void after_failure(Report& c, int i, const PipWorld& snap, const std::string& fam, const std::string& where) {
+  // KF-C14-7: a failure inside solve() / is_satisfiable() / optimizing_solution() leaves the solution tree half updated (or deleted
+  // with the pointer kept): the problem may crash when it is used, assigned to or destroyed
+  const char* poison(int i) const { return is_const_step(i) ? "KF-C14-7" : 0; }
+  void after_failure(Report& c, int i, const PipWorld& snap, const std::string& fam, const std::string& where, int phase) {
     const PStep& st = P.steps[i]; c.cls = pstep_names[st.kind]; std::string what = std::string(pstep_names[st.kind]) + " (" + where + ")";
-    if (st.kind == 4) { c.weak("b.receiver_ok." + fam, p.OK() && q.OK(), [&] { return "source or target fails OK() after a failed " + what; }); return; }
-    if (is_const_step(i)) {
-      c.weak("b.arg_ok." + fam, p.OK(), [&] { return "the problem fails OK() after a failed const " + what; });
+    bool cst = is_const_step(i);
+    if (phase == 1) { if (!cst) c.weak("b.receiver_ok." + fam, p.OK() && (st.kind != 4 || q.OK()), [&] { return "the receiver fails OK() after a failed " + what; }); return; }
+    if (cst) {
       c.check("b.arg_value." + fam, pip_value(p) == pip_value(snap.p), [&] { return "the problem changed in a failed const " + what + ":\n before " + pip_value(snap.p) + "\n after  " + pip_value(p); });
+      c.weak("b.arg_ok." + fam, p.OK(), [&] { return "the problem fails OK() after a failed const " + what; });
     }
-    else c.weak("b.receiver_ok." + fam, p.OK(), [&] { return "the receiver fails OK() after a failed " + what; });
-    c.check("b.bystander." + fam, q.OK() && pip_value(q) == pip_value(snap.q), [&] { return "a problem not involved changed or fails OK() after a failed " + what; });
+    if (st.kind != 4) c.check("b.bystander." + fam, q.OK() && pip_value(q) == pip_value(snap.q), [&] { return "a problem not involved changed or fails OK() after a failed " + what; });
   }
   static void tree(Obs& obs, const char* what, const PIP_Tree_Node* r) { mem::Pause pz; std::ostringstream s; if (r == 0) s << "_|_"; else r->print(s); std::string x = s.str(); for (char& ch : x) if (ch == '\n') ch = ' '; obs.push_back(std::string(what) + "=" + x); }
   void step(int i, Obs& obs) {
@@ -740,6 +784,7 @@ struct LowWorld {
   }
   bool is_const_step(int i) const { return P.steps[i].kind == 9; }
   std::string step_name(int i) const { return lstep_names[P.steps[i].kind]; }
+  const char* poison(int) const { return 0; }
   void assign_from(const LowWorld& w) { for (int i = 0; i < 3; ++i) e[i] = w.e[i]; cs = w.cs; cgs = w.cgs; gs = w.gs; row = w.row; }
   bool obj_same(int j, const LowWorld& w) const {
     if (j < 3) return e[j].space_dimension() == w.e[j].space_dimension() && e[j].is_equal_to(w.e[j]);
@@ -747,14 +792,16 @@ struct LowWorld {
     if (row.size() != w.row.size()) return false; for (dimension_type k = 0; k < row.size(); ++k) if (row.get(k) != w.row.get(k)) return false; return true;
   }
   bool obj_ok(int j) const { return j < 3 ? e[j].OK() : j == 3 ? cs.OK() : j == 4 ? cgs.OK() : j == 5 ? gs.OK() : row.OK(); }
+  std::string diff(const LowWorld& w) const { std::string r; for (int j = 0; j < 7; ++j) if (!obj_same(j, w)) r += " object #" + std::to_string(j) + " differs;"; return r; }
   bool equal(const LowWorld& w) const { for (int j = 0; j < 7; ++j) if (!obj_same(j, w)) return false; return true; }
-  void after_failure(Report& c, int i, const LowWorld& snap, const std::string& fam, const std::string& where) {
+  void after_failure(Report& c, int i, const LowWorld& snap, const std::string& fam, const std::string& where, int phase) {
     const LStep& st = P.steps[i]; int recv = -1, arg = -1; c.cls = lstep_names[st.kind];
     switch (st.kind) { case 0: case 2: case 8: recv = st.r; break; case 1: recv = st.r; arg = st.s; break; case 3: recv = 3; arg = st.s; break; case 4: recv = 4; arg = st.s; break; case 5: recv = 5; arg = st.s; break;
       case 6: recv = st.sub == 0 ? st.r : st.sub == 1 ? 3 : st.sub == 2 ? 4 : 5; arg = st.sub == 0 ? st.s : -1; break; case 7: recv = 6; break; default: break; }
     if (arg == recv) arg = -1;
     static const char* const on[] = { "e0", "e1", "e2", "the constraint system", "the congruence system", "the generator system", "the sparse row" };
     for (int j = 0; j < 7; ++j) {
+      if ((j == recv) != (phase == 1)) continue;
       std::string what = std::string(lstep_names[st.kind]) + " (" + where + "), object " + on[j];
       if (j == recv) c.weak("b.receiver_ok." + fam, obj_ok(j), [&] { return "the receiver fails OK() after a failed " + what; });
       else { bool a = j == arg || (st.kind == 9 && (j == st.r || j == st.s));
@@ -767,7 +814,7 @@ struct LowWorld {
     const LStep& st = P.steps[i]; Linear_Expression& x = e[st.r]; const Linear_Expression& y = e[st.s]; Coefficient cf(st.c);
     switch (st.kind) {
     case 0: if (st.sub == 0) LIB(sub_mul_assign(x, cf, Variable(st.j))); else LIB(add_mul_assign(x, cf, Variable(st.j))); break;
-    case 1: if (st.r == st.s) { LIB(x += cf); } else if (st.sub == 0) LIB(x += y); else if (st.sub == 1) LIB(x -= y); else if (st.sub == 2) { LIB(x = x + y); } else LIB(x.linear_combine(y, cf, cf + 1)); break;
+    case 1: if (st.r == st.s) { LIB(x += cf); } else if (st.sub == 0) LIB(x += y); else if (st.sub == 1) LIB(x -= y); else if (st.sub == 2) { LIB(x = x + y); } else if (st.c == 0 || st.c == -1) LIB(x -= y); else LIB(x.linear_combine(y, cf, cf + 1)); break;
     case 2: if (st.sub < 2 || (dimension_type) st.j >= x.space_dimension()) LIB(x *= cf); else if (st.sub == 2) LIB(x.set_coefficient(Variable(st.j), cf)); else LIB(x.set_inhomogeneous_term(cf)); break;
     case 3: { if (st.sub == 0) { Constraint c(y == 0); LIB(cs.insert(c)); } else { Constraint c(y >= 0); LIB(cs.insert(c)); } break; }
     case 4: { Congruence g((y %= 0) / (st.sub == 0 ? 0 : st.sub + 1)); LIB(cgs.insert(g)); break; }
@@ -801,7 +848,6 @@ static int thrown_by(const std::function<void()>& f, std::string& what) {
 #define OP(name, exp, ...) ops.push_back(Rej{ name, exp, [&]() { __VA_ARGS__; }, false })
 #define OPE(name, exp, ...) ops.push_back(Rej{ name, exp, [&]() { __VA_ARGS__; }, true })
 
-template <class T> static std::string show(const T& x) { std::ostringstream o; o << x; return o.str(); }
 template <int K> static auto& other_topology(C_Polyhedron& c, NNC_Polyhedron& n) { if constexpr (K == K_C) return n; else return c; }
 template <class D> static bool model_same(const D& a, const D& b, size_t n) {
   constexpr int K = Tr<D>::kind;
@@ -1210,7 +1256,26 @@ static void part_a(Ctx& c) {
 
 // ------------------------------------------------------------------ known-finding classes of part B
 static const char* b_known(const std::string& fam, const Finding& f) {
-  (void) fam; (void) f;
+  auto is = [&](const char* chk) { return f.id == std::string(chk) + "." + fam; };
+  bool solver_const = starts(f.cls, "solve") || starts(f.cls, "is_satisfiable") || starts(f.cls, "optimizing_solution");
+  // KF-C14-7: PIP_Problem::solve() (also through is_satisfiable / optimizing_solution) updates context, tableau and solution tree in place:
+  //           after a failure the problem fails OK(), answers differently, crashes when used, assigned to or destroyed
+  if (fam == "PIP_Problem" && solver_const && (is("b.arg_ok") || is("b.arg_value") || is("b.retry") || is("b.crash_after_failure") || is("b.assign_destroy") || is("b.reuse"))) return "KF-C14-7";
+  // KF-C14-8: the same for MIP_Problem::solve() / is_satisfiable() (pending constraints processed in place, status not updated)
+  if (fam == "MIP_Problem" && solver_const && (is("b.arg_ok") || is("b.arg_value") || is("b.retry") || is("b.crash_after_failure") || is("b.assign_destroy") || is("b.reuse"))) return "KF-C14-8";
+  // KF-C14-9: MIP_Problem owns its constraints through raw pointers: the copy constructor (also inside operator= and the branch-and-bound
+  //           copies of solve()) leaks the constraints copied so far when a later allocation fails
+  if (fam == "MIP_Problem" && is("b.leak")) return "KF-C14-9";
+  // KF-C14-10: (weaker guarantee) the receiver of an interrupted mutator is left with a broken invariant: OK() is false or crashes
+  if (is("b.receiver_ok")) return "KF-C14-10";
+  // KF-C14-11: logically const operations that minimize / close / reduce their operands in place (lazy evaluation) leave a const
+  //            operand inconsistent when interrupted: OK() false, another value, other answers when the operation is repeated
+  if (fam != "PIP_Problem" && fam != "MIP_Problem" && (is("b.arg_ok") || is("b.arg_value") || is("b.retry"))) return "KF-C14-11";
+  // KF-C14-12: CO_Tree::CO_Tree(Iterator, n) (sparse row built from a dense row or from another sequence) does not release indexes[] / data[]
+  //            when copying a coefficient throws: seen when a dense expression enters a system of sparse rows
+  if (fam == "Linear_Systems" && is("b.leak")) return "KF-C14-12";
+  // KF-C14-13: domain objects involved in an interrupted call crash when they are used, assigned to or destroyed
+  if (fam != "PIP_Problem" && fam != "MIP_Problem" && (is("b.crash_after_failure") || is("b.assign_destroy"))) return "KF-C14-13";
   return 0;
 }
 
